@@ -216,11 +216,42 @@ def _init_worker(modname, prop, tier, seed):
         mod.init(ctx)
 
 
+class CaseTimeout(BaseException):
+    """Raised by SIGALRM inside a case; BaseException so that no `except Exception` swallows it."""
+
+
+def _on_alarm(signum, frame):
+    raise CaseTimeout()
+
+
+def _case_timeout_s(tier):
+    return float(os.environ.get("VERIF_CASE_TIMEOUT_S", "240" if tier == "thorough" else "60"))
+
+
 def _run_one(inp):
+    """One case, under a wall-clock limit.  A case that exceeds it is *skipped and counted*
+    (stat `case_timeout`): an exponential sub-net search on an unlucky generated level is a property
+    of the generator, not a verdict on the code; `check` turns too many of them into exit 2."""
+    import signal
     mod, ctx = _WORK["mod"], _WORK["ctx"]
     t0 = time.time()
+    signal.signal(signal.SIGALRM, _on_alarm)
+    signal.setitimer(signal.ITIMER_REAL, _case_timeout_s(ctx.tier))
     try:
-        res = mod.run_case(ctx, inp)
+        try:
+            res = mod.run_case(ctx, inp)
+        finally:
+            signal.setitimer(signal.ITIMER_REAL, 0)
+    except CaseTimeout:
+        res = Result()
+        res.stat("case_timeout")
+        res.timed_out = True
+        try:                       # the driver may be mid-request: discard it, a new one starts lazily
+            if getattr(ctx, "_driver", None) is not None:
+                ctx._driver.p.kill()
+        except Exception:
+            pass
+        ctx._driver = None
     except Exception:  # a crash of the harness or of the implementation on a generated input
         res = Result()
         res.violation("harness-error", traceback.format_exc()[-3000:])
@@ -228,6 +259,21 @@ def _run_one(inp):
     return dict(key=res.key, nontrivial=bool(res.nontrivial), stats=dict(res.stats),
                 sample=res.sample, viol=res.viol, borderline=res.borderline, inp=inp,
                 dt=time.time() - t0)
+
+
+def _run_chunk(inps):
+    return [_run_one(i) for i in inps]
+
+
+def _chunks(it, n):
+    buf = []
+    for x in it:
+        buf.append(x)
+        if len(buf) == n:
+            yield buf
+            buf = []
+    if buf:
+        yield buf
 
 
 def run_module(modname, prop, tier, seed, replay=None, jobs=None, budget_s=None):
@@ -256,6 +302,8 @@ def run_module(modname, prop, tier, seed, replay=None, jobs=None, budget_s=None)
         if r["nontrivial"]:
             agg["keys_nontrivial"].add(r["key"])
         agg["stats"].update(r["stats"])
+        if r["stats"].get("case_timeout") and len(agg.setdefault("timeouts", [])) < 5:
+            agg["timeouts"].append(r["inp"])
         if r["borderline"]:
             agg["borderline"] += 1
         if r["sample"] is not None and len(agg["samples"]) < 4:
@@ -279,8 +327,16 @@ def run_module(modname, prop, tier, seed, replay=None, jobs=None, budget_s=None)
         mpctx = multiprocessing.get_context("fork")
         with mpctx.Pool(jobs, initializer=_init_worker,
                         initargs=(modname, prop, tier, seed)) as pool:
-            for r in pool.imap_unordered(_run_one, inputs, chunksize=4):
-                absorb(r)
+            it = pool.imap_unordered(_run_chunk, _chunks(inputs, 4))
+            while True:
+                try:
+                    r = it.next(timeout=max(1.0, min(30.0, budget_s - (time.time() - t0))))
+                except StopIteration:
+                    break
+                except multiprocessing.TimeoutError:
+                    r = None
+                for r1 in (r or []):
+                    absorb(r1)
                 if time.time() - t0 > budget_s:
                     agg["truncated"] = True
                     pool.terminate()
